@@ -554,7 +554,7 @@ def extension_rules(rep, prog):
     calls = [c for c in S.select("call", qname=q) if c.target == U + "pdag_to_dag"]
     handled = any(t in ("*", "ValueError", "Exception", "BaseException") for c in calls for _, ts in getattr(c, "in_try", []) for t in ts)
     ok = len(calls) == 1 and not handled and not calls[0].path and T(summ.ret) == ("call", U + "dag_to_cpdag", (ext_,), (("G", ext_),))
-    rep.check("EXTENSION.pipeline", ok, fwhere(f), "pdag_to_cpdag = dag_to_cpdag(pdag_to_dag(pdag)); the ValueError of the extension search propagates",
+    (rep.decide if handled else rep.check)("EXTENSION.pipeline", ok, fwhere(f), "pdag_to_cpdag = dag_to_cpdag(pdag_to_dag(pdag)); the ValueError of the extension search propagates",
               "pdag_to_cpdag swallows the ValueError or does not complete the extension it found")
     q2 = U + "pdag_to_dag"
     f2 = need(prog, q2)
